@@ -196,13 +196,20 @@ Definition spec_ok (s0 : ruleset) (cs : list cmd) (impl : sx) : bool :=
   | _ => false
   end.
 
+(** The specification's start state: every rule the server-default ruleset starts with IS a
+    server-default rule, whatever its `default` flag in the compiled table says (the property speaks of
+    "the server-default rules", i.e. of where a rule comes from; seed4 C13-2 cleared the flag of one). *)
+Definition all_default (rs : ruleset) : ruleset :=
+  let f := List.map (fun r => mkRule (rid r) true (renabled r) (ractions r) (rpayload r)) in
+  mkRs (f (rs_override rs)) (f (rs_content rs)) (f (rs_room rs)) (f (rs_sender rs)) (f (rs_underride rs)).
+
 Definition run (x : sx) : sx :=
   match x with
   | SL [SL [start; SL ops]; impl] =>
       match as_N start, map_opt cmd_of_sx ops with
       | Some n, Some cs =>
           match start_of_N n with
-          | Some s0 => SL [model_out s0 cs; sx_bool (spec_ok s0 cs impl)]
+          | Some s0 => SL [model_out s0 cs; sx_bool (spec_ok (all_default s0) cs impl)]
           | None => sx_bad
           end
       | _, _ => sx_bad
